@@ -44,6 +44,7 @@ class Candidate(BaseException):
 
 
 CUR = None  # current Ctx
+INTEGRAL_FLOATS_AS_INT = True
 STR_TABLE = {}  # token -> Sym (see Sym.__str__)
 
 
@@ -503,6 +504,11 @@ def _num(x):
     if _is_int_like(x):
         return 'i', z3.IntVal(int(x))
     if _is_float_like(x):
+        if INTEGRAL_FLOATS_AS_INT and isinstance(x, float) and \
+                x == x and abs(x) < 2.0 ** 62 and x == int(x):
+            # value-preserving in "real" float mode; keeps integer
+            # arithmetic out of the mixed int/real fragment
+            return 'i', z3.IntVal(int(x))
         return 'r', _rv(x)
     raise TypeError(x)
 
@@ -568,10 +574,16 @@ class _SymNum(Sym):
         return self._bin(o, lambda a, b: a - b, True)
 
     def __mul__(self, o):
-        return self._bin(o, lambda a, b: a * b)
+        r = self._bin(o, lambda a, b: a * b)
+        rt = getattr(self, 'ratio', None)
+        if rt is not None and isinstance(r, SymReal) and (
+                _is_int_like(o) or (isinstance(o, float) and
+                                    o == int(o) and abs(o) < 2.0 ** 62)):
+            r.ratio = (rt[0] * int(o), rt[1])
+        return r
 
     def __rmul__(self, o):
-        return self._bin(o, lambda a, b: a * b, True)
+        return self.__mul__(o)
 
     def __neg__(self):
         return type(self)(-self.e)
@@ -587,10 +599,17 @@ class _SymNum(Sym):
             k, a, b = _coerce2(self, o)
         except (TypeError, NonFinite):
             return NotImplemented
+        ratio = None
         if k == 'i':
+            ia, ib = (b, a) if rev else (a, b)
+            sib = z3.simplify(ib)
+            if z3.is_int_value(sib) and sib.as_long() > 0:
+                ratio = (ia, sib.as_long())
             a, b = z3.ToReal(a), z3.ToReal(b)
         if rev:
             a, b = b, a
+        if ratio is not None:
+            return SymReal(a / b, ratio)
         sb = z3.simplify(b)
         if not z3.is_rational_value(sb) or sb.numerator_as_long() == 0:
             if cur().branch(b == 0):
@@ -756,19 +775,72 @@ class SymInt(_SymNum):
 
 
 class SymReal(_SymNum):
-    __slots__ = ()
+    __slots__ = ('ratio',)
+
+    def __init__(self, e, ratio=None):
+        self.e = e
+        # (int_expr, positive int c): this value is exactly int_expr / c
+        # (kept structurally so that floor/round stay integer arithmetic)
+        self.ratio = ratio
+
+    def _int_ratio(self):
+        """(int_expr, positive int divisor) if self is structurally
+        ToReal(int_expr) / c or ToReal(int_expr) * (1/c), or an integer
+        valued ToReal(int_expr); else None"""
+        if self.ratio is not None:
+            return self.ratio
+        e = z3.simplify(self.e)
+        k = e.decl().kind()
+        if k == z3.Z3_OP_TO_REAL:
+            return e.arg(0), 1
+        if k == z3.Z3_OP_DIV and e.arg(0).decl().kind() == \
+                z3.Z3_OP_TO_REAL and z3.is_rational_value(e.arg(1)):
+            c = e.arg(1)
+            if c.denominator_as_long() == 1 and c.numerator_as_long() > 0:
+                return e.arg(0).arg(0), c.numerator_as_long()
+        if k == z3.Z3_OP_MUL and e.num_args() == 2:
+            a, b = e.arg(0), e.arg(1)
+            if z3.is_rational_value(b):
+                a, b = b, a
+            if z3.is_rational_value(a) and b.decl().kind() == \
+                    z3.Z3_OP_TO_REAL:
+                n, d = a.numerator_as_long(), a.denominator_as_long()
+                if n > 0:
+                    return b.arg(0) * n, d
+        return None
 
     def trunc(self):
+        r = self._int_ratio()
+        if r is not None:
+            i, c = r
+            if c == 1:
+                return SymInt(i)
+            return SymInt(z3.If(i >= 0, i / c, -((-i) / c)))
         e = self.e
         return SymInt(z3.If(e >= 0, z3.ToInt(e), -z3.ToInt(-e)))
 
     def floor(self):
+        r = self._int_ratio()
+        if r is not None:
+            i, c = r
+            return SymInt(i if c == 1 else i / c)
         return SymInt(z3.ToInt(self.e))
 
     def ceil(self):
         return SymInt(-z3.ToInt(-self.e))
 
     def round_half_even(self):
+        r = self._int_ratio()
+        if r is not None and r[1] == 1:
+            return SymInt(r[0])
+        if r is not None:
+            i, c = r
+            f = i / c
+            rem = i - f * c            # 0 <= rem < c
+            two = 2 * rem
+            return SymInt(z3.If(two < c, f, z3.If(two > c, f + 1,
+                                                  z3.If(f % 2 == 0, f,
+                                                        f + 1))))
         e = self.e
         f = z3.ToInt(e)
         d = e - z3.ToReal(f)
